@@ -40,7 +40,7 @@ ASSUMPTIONS = [
     "diagonalised form is the computational basis state, which the documentation shows as the intended output).",
     "Offline tracking is checked on tapes without Pauli gates (it is not documented whether tracked Paulis of the tape are executed).",
 ]
-BUDGET = {"quick": {"examples": 110}, "thorough": {"examples": 3000, "shards": 16}}
+BUDGET = {"quick": {"examples": 150}, "thorough": {"examples": 3000, "shards": 16}}
 SHRINK_LISTS = ("ops", "steps")
 PAULIS = "IXYZ"
 MBQC_NAMES = {"CNOT", "Hadamard", "S", "RotXZX", "RZ", "PauliX", "PauliY", "PauliZ", "Identity", "GlobalPhase"}
@@ -90,9 +90,15 @@ def basis_change(plane, angle):
     return np.array([v0.conj(), v1.conj()])
 
 
-def eval_mv(mv, outcomes):
-    vals = [outcomes.get(m.meas_uid, 0) for m in mv.measurements]
-    return mv.processing_fn(*vals)
+def eval_mv(mv, outcomes, cache=None):
+    """value of a measurement-value expression for an outcome history (a measurement that was not executed counts as 0);
+    the expression is a pure function of the listed outcomes, so values are memoised per expression."""
+    vals = tuple(int(outcomes.get(m.meas_uid, 0)) for m in mv.measurements)
+    if cache is None:
+        return mv.processing_fn(*vals)
+    if vals not in cache:
+        cache[vals] = mv.processing_fn(*vals)
+    return cache[vals]
 
 
 def _meas_ins(op):
@@ -125,7 +131,7 @@ def tape_program(ops, strip_pauli_corrections=False):
             prog.append(_meas_ins(op))
         elif name == "Conditional":
             mv = op.meas_val
-            pred = (lambda oc, mv=mv: bool(eval_mv(mv, oc)))
+            pred = (lambda oc, mv=mv, cache={}: bool(eval_mv(mv, oc, cache)))
             base = op.base
             if _is_mcm(base):
                 prog.append(("C", pred, _meas_ins(base)))
@@ -199,7 +205,7 @@ def _convert_case(draw, tier):
     ops = draw(_mbqc_ops(n, 8 if tier == "thorough" else 4, cnot_max=2 if tier == "thorough" else 1))
     k = draw(st.integers(1, n))
     return {"kind": "convert", "n": n, "ops": ops, "diag": draw(st.booleans()), "meas": draw(gen.subset(list(range(n)), k)),
-            "hist_seed": draw(st.integers(0, 2**31 - 1)), "n_hist": 48 if tier == "thorough" else 12}
+            "hist_seed": draw(st.integers(0, 2**31 - 1)), "n_hist": 24 if tier == "thorough" else 4}
 
 
 @st.composite
@@ -213,14 +219,18 @@ def _byproduct_case(draw, tier):
 @st.composite
 def _gateset_case(draw, tier):
     c = draw(gen.circuit(max_wires=3, max_depth=5, extras=False, meas=False, ang=gen.generic_angles()))
-    return {"kind": "gateset", "wires": c["wires"], "ops": c["ops"]}
+    ops = c["ops"]
+    if draw(st.booleans()):
+        ops = ops + [{"op": "Rot", "p": [draw(gen.generic_angles()) for _ in range(3)], "w": [draw(st.sampled_from(c["wires"]))]}]
+    return {"kind": "gateset", "wires": c["wires"], "ops": ops}
 
 
 @st.composite
 def _diag_case(draw, tier):
     n = draw(st.sampled_from([1, 2, 2, 3]))
     ang = gen.generic_angles()
-    steps = [{"t": "g", "op": _g("RY", [w], draw(ang))} for w in range(n)]
+    # generic Bloch vectors (a real state cannot tell the two orientations of the Y axis apart)
+    steps = [{"t": "g", "op": _g(g, [w], draw(ang))} for w in range(n) for g in ("RY", "RX")]
     n_m = 0
     dead = set()
     for _ in range(draw(st.integers(1, 7))):
@@ -234,21 +244,20 @@ def _diag_case(draw, tier):
             reset = draw(st.booleans())
             s = {"t": "m", "kind": kind, "w": w, "reset": reset}
             if kind == "arb":
-                s.update(plane=draw(st.sampled_from(["XY", "ZX", "YZ"])), angle=draw(ang))
+                s.update(plane=draw(st.sampled_from(["XY", "XY", "XY", "ZX", "ZX", "ZX", "YZ"])), angle=draw(ang))  # YZ rare: separately bucketed
             if kind == "cond":
                 if n_m == 0:
                     continue
                 s.update(on=draw(st.integers(0, n_m - 1)),
-                         a=draw(st.sampled_from([["x"], ["y"], ["arb", "XY", 0.4], ["arb", "ZX", 1.1], ["arb", "YZ", -0.7]])),
-                         b=draw(st.sampled_from([["x"], ["y"], ["arb", "XY", -0.4], ["arb", "ZX", 2.3], ["arb", "YZ", 0.9]])))
+                         a=draw(st.sampled_from([["x"], ["y"], ["arb", "XY", 0.4], ["arb", "ZX", 1.1], ["x"], ["arb", "XY", 2.1], ["arb", "ZX", -0.5], ["arb", "YZ", -0.7]])),
+                         b=draw(st.sampled_from([["x"], ["y"], ["arb", "XY", -0.4], ["arb", "ZX", 2.3], ["y"], ["arb", "XY", 1.2], ["arb", "ZX", 0.8], ["arb", "YZ", 0.9]])))
             if not reset:
                 dead.add(w)
             steps.append(s)
             n_m += 1
         elif r < 6 and n_m:
             w = draw(st.sampled_from(alive))
-            steps.append({"t": "c", "on": draw(st.integers(0, n_m - 1)), "op": _g(draw(st.sampled_from(["RX", "PauliX", "Hadamard", "RY"])), [w]) if False else
-                          draw(gen.gate([w], {"RX": (1, 1), "PauliX": (0, 1), "Hadamard": (0, 1), "S": (0, 1)}, ang))})
+            steps.append({"t": "c", "on": draw(st.integers(0, n_m - 1)), "op": draw(gen.gate([w], {"RX": (1, 1), "PauliX": (0, 1), "Hadamard": (0, 1), "S": (0, 1)}, ang))})
         else:
             k = 2 if len(alive) >= 2 and draw(st.booleans()) else 1
             steps.append({"t": "g", "op": draw(gen.gate(alive, {"RX": (1, 1), "Hadamard": (0, 1), "RZ": (1, 1), "CNOT": (0, 2), "CZ": (0, 2), "CRY": (1, 2)}
@@ -272,13 +281,24 @@ def enumerate_cases(tier):
         for word in itertools.product(PAULIS, repeat=k):
             yield {"kind": "pauli-prod", "word": "".join(word)}
     yield {"kind": "tracker-errors"}
+    # convert_to_mbqc_gateset: every common gate once with generic angles (Rot goes through the module's own XZX rule)
+    for name, (npar, nw) in sorted({**gen.GATES1, **{k: gen.GATES2[k] for k in ("CNOT", "CZ", "CY", "SWAP", "CRX", "CRY", "CRZ", "CRot", "IsingXX", "ControlledPhaseShift")},
+                                    "Toffoli": (0, 3)}.items()):
+        yield {"kind": "gateset", "wires": list(range(nw)), "ops": [{"op": "RY", "p": [0.3 + 0.2 * w], "w": [w]} for w in range(nw)] +
+               [{"op": name, "p": [0.37, -1.21, 2.05][:npar], "w": list(range(nw))[::-1]}]}
+    # diagonalize_mcms: one measurement per documented plane on a generic state, with and without reset, plain and as cond_measure branch
+    for plane in ("XY", "ZX", "YZ"):
+        prep = [{"t": "g", "op": _g("RY", [0], 1.1)}, {"t": "g", "op": _g("RX", [0], 0.9)}, {"t": "g", "op": _g("RY", [1], 0.6)}, {"t": "g", "op": _g("CNOT", [0, 1])}]
+        yield {"kind": "diag", "n": 2, "steps": prep + [{"t": "m", "kind": "arb", "w": 0, "reset": True, "plane": plane, "angle": 0.7}]}
+        yield {"kind": "diag", "n": 2, "steps": prep + [{"t": "m", "kind": "z", "w": 1, "reset": True},
+                                                         {"t": "m", "kind": "cond", "w": 0, "reset": False, "on": 0, "a": ["arb", plane, 0.7], "b": ["arb", plane, -1.3]}]}
     # single-gate patterns behind a generic RotXZX, every history (8 measurements = 256 histories)
     for diag in (False, True):
         for gate in (_g("Hadamard", [0]), _g("S", [0]), _g("RZ", [0], 0.83), _g("RotXZX", [0], 0.41, -1.2, 2.2)):
             yield {"kind": "convert", "n": 1, "ops": [_g("RotXZX", [0], 0.7, 1.9, -0.6), gate], "diag": diag, "meas": [0], "hist_seed": 0, "n_hist": 0}
         # CNOT pattern: both inputs generic; the 8 measurements of the two RotXZX patterns are forced (two settings), the 13 of the CNOT
         # pattern are enumerated exhaustively (8192 histories)
-        for seed in ((1,) if tier == "quick" and diag else (1, 2)):
+        for seed in ((1,) if tier == "quick" else (1, 2, 3)):
             yield {"kind": "convert", "n": 2, "ops": [_g("RotXZX", [0], 0.7, 1.9, -0.6), _g("RotXZX", [1], -0.3, 0.8, 1.3), _g("CNOT", [1, 0])],
                    "diag": diag, "meas": [1, 0], "hist_seed": seed, "n_hist": 1, "prefix": 8}
 
